@@ -1,6 +1,1301 @@
-//! Component `worker` (see /verif/FRAMEWORK.md).
+//! Component `worker` (M2): the worker-side task state machine, driven stand-alone.
+//!
+//! The REAL `WorkerState` (real allocator, real `process_worker_message`, real `handle_task_future`,
+//! real `retract_check_process`) is fed scripted server->worker messages; the harness owns the task
+//! launcher, so it decides whether a launch fails and when / how a running task ends. The allocator is
+//! not part of the worker model: its answers (`try_allocate` ok/none + an allocation handle,
+//! `is_enabled` booleans) and every hash-order choice (iteration order of `blocked_requests` and of
+//! `prefilled_tasks`) are recorded in the `op` line.
+//!
+//! op lines
+//!   compute <e>..      e = <task>:<inst>:<rq>:<rv|p>:<tl ms|->:<f0|f1>:<n|k<h>|->   (p = prefill entry,
+//!                      f1 = the launcher refuses the task, n = allocator refused, k<h> = allocation h)
+//!   retract <ids> | cancel <ids>
+//!   end <task> <fin|err|can|tmo> <rq:rv:0/1,..|->    blocked set in iteration order + is_enabled answers
+//!   fire <task>                                       the time limit of a running task elapses
+//!   rcheck <rq ids in iteration order of prefilled_tasks|->
+//!   newrq <id> <variants>   |   stop
+//! out lines: `!panic <site>` | `launch t inst rv h ok|fail` | `rel <handles>` | `stop t cancel|timeout`
+//!   | `upd <items>` | `retr <ids>` (messages, in send order) | `run …` `backlog <rq> …` `blocked …` (snapshot)
+use std::cell::RefCell;
+use std::collections::{BTreeMap, BTreeSet};
+use std::rc::{Rc, Weak};
+use std::time::Duration;
 
-pub fn main(mode: &str, _args: &[String]) {
-    eprintln!("component worker: mode {mode} not implemented yet");
-    std::process::exit(2);
+use tako::internal::messages::worker::{
+    ComputeTaskSeparateData, ComputeTaskSharedData, ComputeTasksMsg, FromWorkerMessage, TaskIdsMsg, ToWorkerMessage,
+    WorkerRegistrationResponse, WorkerTaskUpdate,
+};
+use tako::launcher::{StopReason, TaskBuildContext, TaskLaunchData, TaskLauncher, TaskResult};
+use tako::resources::{
+    Allocation, AllocationRequest, ResourceAllocRequest, ResourceAmount, ResourceDescriptor, ResourceDescriptorItem,
+    ResourceDescriptorKind, ResourceRequest, ResourceRequestVariants, ResourceRqId, ResourceRqMap, ResourceWeight,
+};
+use tako::verif::alloc::{AllocatorSnapshot, PoolSnapshot};
+use tako::verif::worker2::{VerifWorker2, VerifWorkerSnapshot2};
+use tako::worker::{ServerLostPolicy, WorkerConfiguration};
+use tako::{InstanceId, JobId, JobTaskId, Priority, ResourceVariantId, TaskId, WorkerId};
+use tokio::sync::oneshot;
+
+use crate::util::{GenArgs, Rng, Trace, list};
+
+// ------------------------------------------------------------------------------------------------
+// request classes
+
+const KINDS: [&str; 8] = ["c1", "c2", "c3", "ca", "fc2", "g1", "sc2", "h1"];
+
+fn kind_entries(kind: &str) -> Vec<ResourceAllocRequest> {
+    let cpu = |request: AllocationRequest| ResourceAllocRequest { resource_id: 0.into(), request };
+    let units = ResourceAmount::new_units;
+    match kind {
+        "c1" => vec![cpu(AllocationRequest::Compact(units(1)))],
+        "c2" => vec![cpu(AllocationRequest::Compact(units(2)))],
+        "c3" => vec![cpu(AllocationRequest::Compact(units(3)))],
+        "ca" => vec![cpu(AllocationRequest::All)],
+        "fc2" => vec![cpu(AllocationRequest::ForceCompact(units(2)))],
+        "g1" => vec![
+            cpu(AllocationRequest::Compact(units(1))),
+            ResourceAllocRequest { resource_id: 1.into(), request: AllocationRequest::Compact(units(1)) },
+        ],
+        "sc2" => vec![cpu(AllocationRequest::Scatter(units(2)))],
+        "h1" => vec![cpu(AllocationRequest::Compact(ResourceAmount::new(0, 5000)))],
+        _ => panic!("unknown request kind {kind}"),
+    }
+}
+
+/// one variant = (kind, min_time in seconds)
+type Class = Vec<(String, u64)>;
+
+fn class_to_rqv(c: &Class) -> ResourceRequestVariants {
+    ResourceRequestVariants::new(
+        c.iter()
+            .map(|(k, mt)| {
+                ResourceRequest::new(0, Duration::from_secs(*mt), kind_entries(k).into_iter().collect(), ResourceWeight::default())
+            })
+            .collect(),
+    )
+}
+
+fn show_class(c: &Class) -> String {
+    c.iter().map(|(k, mt)| format!("{k}@{mt}")).collect::<Vec<_>>().join("+")
+}
+
+fn parse_class(s: &str) -> Class {
+    s.split('+')
+        .map(|v| {
+            let (k, mt) = v.split_once('@').expect("variant");
+            (k.to_string(), mt.parse().expect("min_time"))
+        })
+        .collect()
+}
+
+// ------------------------------------------------------------------------------------------------
+// launcher
+
+#[derive(Clone, Copy, Debug, PartialEq, Eq)]
+pub enum EndRes {
+    Fin,
+    Err,
+    Can,
+    Tmo,
+}
+
+impl EndRes {
+    fn name(self) -> &'static str {
+        match self {
+            EndRes::Fin => "fin",
+            EndRes::Err => "err",
+            EndRes::Can => "can",
+            EndRes::Tmo => "tmo",
+        }
+    }
+    fn parse(s: &str) -> EndRes {
+        match s {
+            "fin" => EndRes::Fin,
+            "err" => EndRes::Err,
+            "can" => EndRes::Can,
+            "tmo" => EndRes::Tmo,
+            _ => panic!("bad task result {s}"),
+        }
+    }
+}
+
+struct Call {
+    task: u32,
+    inst: u32,
+    rv: u32,
+    ptr: usize,
+    ok: bool,
+}
+
+struct RunCtl {
+    end_tx: oneshot::Sender<EndRes>,
+    stop_rx: oneshot::Receiver<StopReason>,
+}
+
+#[derive(Default)]
+struct Ctl {
+    calls: Vec<Call>,
+    /// launch-fail flag of a task instance (task, instance), set by the compute entry that carried it
+    fail: BTreeMap<(u32, u32), bool>,
+    running: BTreeMap<u32, RunCtl>,
+}
+
+struct WLauncher {
+    ctl: Rc<RefCell<Ctl>>,
+}
+
+fn tnum(t: TaskId) -> u32 {
+    t.job_task_id().as_num()
+}
+
+fn tid(t: u32) -> TaskId {
+    TaskId::new(JobId::new(1), JobTaskId::new(t))
+}
+
+impl TaskLauncher for WLauncher {
+    fn build_task(&self, ctx: TaskBuildContext, stop_receiver: oneshot::Receiver<StopReason>) -> tako::Result<TaskLaunchData> {
+        let task = tnum(ctx.task_id());
+        let mut ctl = self.ctl.borrow_mut();
+        let fail = ctl.fail.get(&(task, ctx.instance_id().as_num())).copied().unwrap_or(false);
+        ctl.calls.push(Call {
+            task,
+            inst: ctx.instance_id().as_num(),
+            rv: ctx.resource_variant().as_num() as u32,
+            ptr: ctx.allocation() as *const Allocation as usize,
+            ok: !fail,
+        });
+        if fail {
+            return Err(tako::Error::GenericError("launch failed (harness)".to_string()));
+        }
+        let (tx, rx) = oneshot::channel::<EndRes>();
+        ctl.running.insert(task, RunCtl { end_tx: tx, stop_rx: stop_receiver });
+        let fut = async move {
+            match rx.await {
+                Ok(EndRes::Fin) => Ok(TaskResult::Finished),
+                Ok(EndRes::Err) => Err(tako::Error::GenericError("task failed (harness)".to_string())),
+                Ok(EndRes::Can) => Ok(TaskResult::Canceled),
+                Ok(EndRes::Tmo) => Ok(TaskResult::Timeouted),
+                Err(_) => futures::future::pending().await,
+            }
+        };
+        Ok(TaskLaunchData::new(Box::pin(fut), Default::default()))
+    }
+}
+
+// ------------------------------------------------------------------------------------------------
+// panic capture that also sees panics swallowed by tokio's spawned-task wrapper
+
+thread_local! { static PANIC: RefCell<Option<(String, String)>> = const { RefCell::new(None) }; }
+
+fn catch_all<R>(f: impl FnOnce() -> R) -> Result<R, (String, String)> {
+    let prev = std::panic::take_hook();
+    std::panic::set_hook(Box::new(|info| {
+        let loc = info.location().map(|l| format!("{}:{}", l.file(), l.line())).unwrap_or_default();
+        let msg = if let Some(s) = info.payload().downcast_ref::<&str>() {
+            s.to_string()
+        } else if let Some(s) = info.payload().downcast_ref::<String>() {
+            s.clone()
+        } else {
+            "panic".to_string()
+        };
+        PANIC.with(|c| {
+            let mut c = c.borrow_mut();
+            if c.is_none() {
+                *c = Some((loc, msg));
+            }
+        });
+    }));
+    PANIC.with(|c| *c.borrow_mut() = None);
+    let r = std::panic::catch_unwind(std::panic::AssertUnwindSafe(f));
+    std::panic::set_hook(prev);
+    let p = PANIC.with(|c| c.borrow_mut().take());
+    match (r, p) {
+        (Ok(v), None) => Ok(v),
+        (_, Some(p)) => Err(p),
+        (Err(_), None) => Err((String::new(), "panic".to_string())),
+    }
+}
+
+fn panic_site(loc: &str, msg: &str) -> String {
+    let file = loc.rsplit('/').next().unwrap_or(loc);
+    let file = file.split(':').next().unwrap_or(file);
+    if file == "stablemap.rs" && msg.contains("is_none") {
+        "running-dup".to_string()
+    } else if file == "stablemap.rs" {
+        "running-missing".to_string()
+    } else if file == "map.rs" && msg.contains("unwrap") {
+        "rq-unknown".to_string()
+    } else if file == "request.rs" && msg.contains("index out of bounds") {
+        "rv-unknown".to_string()
+    } else if file == "rpc.rs" && msg.contains("left == right") {
+        "rq-id-mismatch".to_string()
+    } else if file == "task_comm.rs" {
+        "stop-receiver-gone".to_string()
+    } else if file == "reactor.rs" && msg.contains("index out of bounds") {
+        "shared-index".to_string()
+    } else if file == "reactor.rs" && msg.contains("unwrap") {
+        "running-missing".to_string()
+    } else {
+        format!("other:{}:{}", file, msg.split_whitespace().take(4).collect::<Vec<_>>().join("_"))
+    }
+}
+
+// ------------------------------------------------------------------------------------------------
+// operations
+
+#[derive(Clone, Debug)]
+pub struct Entry {
+    task: u32,
+    inst: u32,
+    rq: u32,
+    /// None = prefill entry
+    rv: Option<u32>,
+    tl_ms: Option<u64>,
+    fail: bool,
+}
+
+#[derive(Clone, Debug)]
+pub enum Op {
+    Compute(Vec<Entry>),
+    Retract(Vec<u32>),
+    Cancel(Vec<u32>),
+    End(u32, EndRes),
+    Fire(u32),
+    RCheck,
+    NewRq(u32, Class),
+    Stop,
+}
+
+pub struct Params {
+    lim: Option<u64>,
+    sockets: u32,
+    per_socket: u32,
+    gpus: u32,
+    classes: Vec<Class>,
+}
+
+impl Params {
+    fn show(&self) -> String {
+        format!(
+            "lim={} cpu={}x{} gpu={} rqs={}",
+            self.lim.map(|l| l.to_string()).unwrap_or("-".into()),
+            self.sockets,
+            self.per_socket,
+            self.gpus,
+            self.classes.iter().map(show_class).collect::<Vec<_>>().join("/")
+        )
+    }
+    fn parse(toks: &[&str]) -> Params {
+        let mut p = Params { lim: None, sockets: 1, per_socket: 4, gpus: 0, classes: vec![] };
+        for t in toks {
+            if let Some(v) = t.strip_prefix("lim=") {
+                p.lim = if v == "-" { None } else { Some(v.parse().unwrap()) };
+            } else if let Some(v) = t.strip_prefix("cpu=") {
+                let (a, b) = v.split_once('x').unwrap();
+                p.sockets = a.parse().unwrap();
+                p.per_socket = b.parse().unwrap();
+            } else if let Some(v) = t.strip_prefix("gpu=") {
+                p.gpus = v.parse().unwrap();
+            } else if let Some(v) = t.strip_prefix("rqs=") {
+                p.classes = if v == "-" { vec![] } else { v.split('/').map(parse_class).collect() };
+            }
+        }
+        p
+    }
+}
+
+struct Pinned {
+    ptr: usize,
+    weak: Weak<Allocation>,
+    id: u64,
+}
+
+pub struct W {
+    rt: tokio::runtime::Runtime,
+    local: tokio::task::LocalSet,
+    vw: VerifWorker2,
+    ctl: Rc<RefCell<Ctl>>,
+    lim: Option<u64>,
+    classes: Vec<Class>,
+    pinned: Vec<Pinned>,
+    next_handle: u64,
+    /// handle held by each running task after the last step
+    held: BTreeMap<u32, u64>,
+    now_ms: u64,
+    /// time-limit deadline (tokio ms) of running tasks whose limit has not fired
+    pub deadlines: BTreeMap<u32, u64>,
+    /// time limit of every task instance (task, instance) as given by its compute entry
+    tl_of: BTreeMap<(u32, u32), Option<u64>>,
+    /// tasks that received a stop signal since they were launched
+    pub signalled: BTreeMap<u32, &'static str>,
+    total: Vec<u64>,
+    pub panicked: bool,
+    // monitors
+    cancelled: BTreeMap<u32, bool>, // task -> was in the backlog when the cancel was processed
+    retracted: BTreeSet<u32>,
+    fired: BTreeSet<u32>,
+    pub contract_ok: bool,
+    pub stopped: bool,
+}
+
+fn free_amounts(s: &AllocatorSnapshot) -> Vec<u64> {
+    s.pools
+        .iter()
+        .map(|p| match p {
+            PoolSnapshot::Empty => 0,
+            PoolSnapshot::Indices { free, fractions, .. } => free.len() as u64 * 10_000 + fractions.iter().map(|(_, f)| *f as u64).sum::<u64>(),
+            PoolSnapshot::Groups { free, fractions, .. } => {
+                free.iter().map(|g| g.len() as u64 * 10_000).sum::<u64>()
+                    + fractions.iter().map(|g| g.iter().map(|(_, f)| *f as u64).sum::<u64>()).sum::<u64>()
+            }
+            PoolSnapshot::Sum { free, .. } => *free,
+        })
+        .collect()
+}
+
+impl W {
+    pub fn new(p: &Params) -> W {
+        let rt = tokio::runtime::Builder::new_current_thread().enable_all().start_paused(true).build().unwrap();
+        let local = tokio::task::LocalSet::new();
+        let mut items = vec![ResourceDescriptorItem {
+            name: "cpus".to_string(),
+            kind: ResourceDescriptorKind::regular_sockets(p.sockets, p.per_socket),
+        }];
+        if p.gpus > 0 {
+            items.push(ResourceDescriptorItem::range("gpus", 0, p.gpus - 1));
+        }
+        let config = WorkerConfiguration {
+            resources: ResourceDescriptor::new(items, Default::default()),
+            listen_address: "1.1.1.1:123".to_string(),
+            hostname: "test1".to_string(),
+            group: "default".to_string(),
+            work_dir: Default::default(),
+            heartbeat_interval: Duration::from_millis(1000),
+            overview_configuration: Default::default(),
+            idle_timeout: None,
+            time_limit: p.lim.map(Duration::from_secs),
+            retract_check_interval: Duration::from_secs(30),
+            on_server_lost: ServerLostPolicy::Stop,
+            min_utilization: 0.0,
+            extra: Default::default(),
+        };
+        let mut rq_map = ResourceRqMap::default();
+        for c in &p.classes {
+            rq_map.insert(class_to_rqv(c));
+        }
+        let registration = WorkerRegistrationResponse {
+            worker_id: WorkerId::new(1),
+            resource_names: vec!["cpus".to_string(), "gpus".to_string()],
+            other_workers: vec![],
+            server_idle_timeout: None,
+            server_uid: "verif-uid".to_string(),
+            worker_overview_interval_override: None,
+            resource_rq_map: rq_map,
+        };
+        let ctl: Rc<RefCell<Ctl>> = Default::default();
+        let launcher = Box::new(WLauncher { ctl: ctl.clone() });
+        let vw = rt.block_on(local.run_until(async move { VerifWorker2::new(config, registration, launcher) }));
+        let total = free_amounts(&vw.allocator_snapshot());
+        W {
+            rt,
+            local,
+            vw,
+            ctl,
+            lim: p.lim,
+            classes: p.classes.clone(),
+            pinned: vec![],
+            next_handle: 1,
+            held: Default::default(),
+            now_ms: 0,
+            deadlines: Default::default(),
+            tl_of: Default::default(),
+            signalled: Default::default(),
+            total,
+            panicked: false,
+            cancelled: Default::default(),
+            retracted: Default::default(),
+            fired: Default::default(),
+            contract_ok: true,
+            stopped: false,
+        }
+    }
+
+    pub fn snapshot(&self) -> VerifWorkerSnapshot2 {
+        self.vw.snapshot()
+    }
+
+    fn min_time(&self, rq: u32, rv: u32) -> Option<u64> {
+        self.classes.get(rq as usize).and_then(|c| c.get(rv as usize)).map(|v| v.1)
+    }
+
+    fn hard_regime(&self, rq: u32, rv: u32) -> bool {
+        match (self.lim, self.min_time(rq, rv)) {
+            (Some(l), Some(mt)) => l < mt,
+            _ => false,
+        }
+    }
+
+    fn run_local(&mut self, msg: Option<ToWorkerMessage>, advance_ms: u64, spawn_check: bool) -> bool {
+        let local = &self.local;
+        let vw = &self.vw;
+        self.rt.block_on(local.run_until(async move {
+            let mut r = false;
+            if let Some(m) = msg {
+                r = vw.process(m);
+            }
+            if spawn_check {
+                vw.spawn_retract_check(Duration::from_secs(10_000_000));
+            }
+            if advance_ms > 0 {
+                tokio::time::advance(Duration::from_millis(advance_ms)).await;
+            }
+            for _ in 0..20 {
+                tokio::task::yield_now().await;
+            }
+            r
+        }))
+    }
+
+    /// Applies one operation to the real worker and prints `op`, `out`, `mon` lines.
+    pub fn step(&mut self, op: &Op, tr: &mut Trace) {
+        let pre = self.vw.snapshot();
+        let held_before = self.held.clone();
+        let backlog_before: BTreeSet<u32> = pre.prefilled.iter().flat_map(|(_, ts)| ts.iter().map(|(t, _)| tnum(*t))).collect();
+        let running_before: BTreeSet<u32> = pre.running.iter().map(|r| tnum(r.task_id)).collect();
+        let mut mons: Vec<(String, String, String)> = vec![];
+
+        // ---- contract bookkeeping + monitor bookkeeping that precedes the step
+        let mut pre_enabled_first: Option<bool> = None;
+        // pre-state answers of the allocator, per entry (None for prefill / unregistered requests)
+        let mut pre_enabled: Vec<Option<bool>> = vec![];
+        match op {
+            Op::Compute(es) => {
+                for e in es {
+                    self.cancelled.remove(&e.task);
+                    self.retracted.remove(&e.task);
+                    self.tl_of.insert((e.task, e.inst), e.tl_ms);
+                    self.ctl.borrow_mut().fail.insert((e.task, e.inst), e.fail);
+                    if backlog_before.contains(&e.task) || running_before.contains(&e.task) {
+                        self.contract_ok = false;
+                    }
+                    if e.rq as usize >= pre.n_requests {
+                        self.contract_ok = false;
+                    }
+                    if let Some(rv) = e.rv {
+                        if self.min_time(e.rq, rv).is_none() {
+                            self.contract_ok = false;
+                        }
+                    }
+                }
+                let mut seen = BTreeSet::new();
+                for e in es {
+                    if !seen.insert(e.task) {
+                        self.contract_ok = false;
+                    }
+                }
+                for e in es {
+                    pre_enabled.push(e.rv.and_then(|rv| self.vw.is_enabled(ResourceRqId::new(e.rq), ResourceVariantId::new(rv as u8))));
+                }
+                if let Some(i) = es.iter().position(|e| e.rv.is_some()) {
+                    pre_enabled_first = pre_enabled[i];
+                }
+            }
+            Op::NewRq(id, _) => {
+                if *id as usize != pre.n_requests {
+                    self.contract_ok = false;
+                }
+            }
+            _ => {}
+        }
+
+        // ---- execute
+        let msg = match op {
+            Op::Compute(es) => {
+                let mut shared: Vec<ComputeTaskSharedData> = vec![];
+                let mut shared_key: Vec<Option<u64>> = vec![];
+                let tasks = es
+                    .iter()
+                    .map(|e| {
+                        let idx = match shared_key.iter().position(|k| *k == e.tl_ms) {
+                            Some(i) => i,
+                            None => {
+                                shared_key.push(e.tl_ms);
+                                shared.push(ComputeTaskSharedData { time_limit: e.tl_ms.map(Duration::from_millis), body: Default::default() });
+                                shared.len() - 1
+                            }
+                        };
+                        ComputeTaskSeparateData {
+                            shared_index: idx,
+                            id: tid(e.task),
+                            resource_rq_id: ResourceRqId::new(e.rq),
+                            resource_rq_variant: e.rv.map(|v| ResourceVariantId::new(v as u8)),
+                            instance_id: InstanceId::new(e.inst),
+                            priority: Priority::new(0),
+                            node_list: vec![],
+                            entry: None,
+                        }
+                    })
+                    .collect();
+                Some(ToWorkerMessage::ComputeTasks(ComputeTasksMsg { tasks, shared_data: shared }))
+            }
+            Op::Retract(ids) => Some(ToWorkerMessage::RetractTasks(TaskIdsMsg { ids: ids.iter().map(|t| tid(*t)).collect() })),
+            Op::Cancel(ids) => Some(ToWorkerMessage::CancelTasks(TaskIdsMsg { ids: ids.iter().map(|t| tid(*t)).collect() })),
+            Op::NewRq(id, c) => Some(ToWorkerMessage::NewResourceRequest(ResourceRqId::new(*id), class_to_rqv(c))),
+            Op::Stop => Some(ToWorkerMessage::Stop),
+            Op::End(..) | Op::Fire(_) | Op::RCheck => None,
+        };
+        let mut advance = 0;
+        let mut bad_op = false;
+        match op {
+            Op::End(t, res) => {
+                let rc = self.ctl.borrow_mut().running.remove(t);
+                match rc {
+                    Some(rc) => {
+                        let _ = rc.end_tx.send(*res);
+                        // the stop receiver stays alive until the worker has removed the task
+                        std::mem::forget(rc.stop_rx);
+                    }
+                    None => bad_op = true,
+                }
+            }
+            Op::Fire(t) => match self.deadlines.get(t) {
+                Some(d) => advance = d.saturating_sub(self.now_ms) + 2,
+                None => bad_op = true,
+            },
+            _ => {}
+        }
+        let spawn_check = matches!(op, Op::RCheck);
+        let result = if bad_op { Ok(false) } else { catch_all(|| self.run_local(msg, advance, spawn_check)) };
+        self.now_ms += advance;
+
+        // ---- observe
+        let calls: Vec<Call> = std::mem::take(&mut self.ctl.borrow_mut().calls);
+        let msgs = self.vw.drain_messages();
+        let post = self.vw.snapshot();
+        let mut stops: Vec<(u32, &'static str)> = vec![];
+        {
+            let mut ctl = self.ctl.borrow_mut();
+            for (t, rc) in ctl.running.iter_mut() {
+                if let Ok(reason) = rc.stop_rx.try_recv() {
+                    stops.push((*t, match reason { StopReason::Cancel => "cancel", StopReason::Timeout => "timeout" }));
+                }
+            }
+        }
+        for (t, k) in &stops {
+            self.signalled.insert(*t, k);
+        }
+
+        // ---- label allocation handles
+        let assigned: BTreeSet<(u32, u32)> = match op {
+            Op::Compute(es) => es.iter().filter(|e| e.rv.is_some()).map(|e| (e.task, e.inst)).collect(),
+            _ => Default::default(),
+        };
+        let mut step_local: BTreeMap<usize, u64> = Default::default();
+        let mut fresh: Vec<u64> = vec![];
+        let mut called: BTreeSet<(u32, u32)> = Default::default();
+        let mut call_handle: Vec<u64> = vec![];
+        for c in &calls {
+            let is_fresh = assigned.contains(&(c.task, c.inst)) && !called.contains(&(c.task, c.inst));
+            called.insert((c.task, c.inst));
+            let h = if is_fresh {
+                let h = self.next_handle;
+                self.next_handle += 1;
+                step_local.insert(c.ptr, h);
+                fresh.push(h);
+                h
+            } else if let Some(p) = self.pinned.iter().find(|p| p.ptr == c.ptr) {
+                p.id
+            } else if let Some(h) = step_local.get(&c.ptr) {
+                *h
+            } else {
+                // an allocation the harness has never seen, not made for an assigned entry
+                let h = self.next_handle;
+                self.next_handle += 1;
+                step_local.insert(c.ptr, h);
+                fresh.push(h);
+                mons.push(("c04.handover".into(), "unknown-allocation".into(), format!("launcher call for task {} with an allocation that no task held", c.task)));
+                h
+            };
+            call_handle.push(h);
+        }
+        let mut held: BTreeMap<u32, u64> = Default::default();
+        for r in &post.running {
+            let ptr = r.allocation.as_ptr() as usize;
+            let t = tnum(r.task_id);
+            let h = if let Some(p) = self.pinned.iter().find(|p| p.ptr == ptr) {
+                p.id
+            } else if let Some(h) = step_local.get(&ptr) {
+                self.pinned.push(Pinned { ptr, weak: r.allocation.clone(), id: *h });
+                *h
+            } else {
+                let h = self.next_handle;
+                self.next_handle += 1;
+                self.pinned.push(Pinned { ptr, weak: r.allocation.clone(), id: h });
+                mons.push(("c04.handover".into(), "unlaunched-running".into(), format!("task {t} runs with an allocation no launcher call saw")));
+                h
+            };
+            held.insert(t, h);
+        }
+
+        // ---- allocator answers (compute)
+        let mut answers: Vec<String> = vec![];
+        if let Op::Compute(es) = op {
+            let mut first_assigned = true;
+            for (ei, e) in es.iter().enumerate() {
+                let Some(rv) = e.rv else {
+                    answers.push("-".into());
+                    continue;
+                };
+                let ans = if let Some(i) = calls.iter().position(|c| c.task == e.task && c.inst == e.inst) {
+                    format!("k{}", call_handle[i])
+                } else if self.hard_regime(e.rq, rv) {
+                    // nothing is launched in this regime: the answer is read from the allocator before the
+                    // step (exact when no earlier entry of this message changed the allocator state; the
+                    // generator only puts such an entry first among the assigned entries of a message)
+                    match pre_enabled.get(ei).copied().flatten() {
+                        Some(true) => {
+                            let h = self.next_handle;
+                            self.next_handle += 1;
+                            fresh.push(h);
+                            format!("k{h}")
+                        }
+                        _ => "n".to_string(),
+                    }
+                } else {
+                    "n".to_string()
+                };
+                if first_assigned && result.is_ok() {
+                    if let Some(b) = pre_enabled_first {
+                        if b != ans.starts_with('k') {
+                            mons.push(("c04.handover".into(), "alloc-answer-mismatch".into(),
+                                format!("task {}: the allocator admitted the request = {b}, the worker behaved as if {}", e.task, !b)));
+                        }
+                    }
+                }
+                first_assigned = false;
+                answers.push(ans);
+            }
+        }
+
+        // ---- op line
+        let op_line = match op {
+            Op::Compute(es) => {
+                let items: Vec<String> = es
+                    .iter()
+                    .zip(answers.iter())
+                    .map(|(e, a)| {
+                        format!(
+                            "{}:{}:{}:{}:{}:f{}:{}",
+                            e.task,
+                            e.inst,
+                            e.rq,
+                            e.rv.map(|v| v.to_string()).unwrap_or("p".into()),
+                            e.tl_ms.map(|v| v.to_string()).unwrap_or("-".into()),
+                            e.fail as u8,
+                            a
+                        )
+                    })
+                    .collect();
+                format!("compute {}", items.join(" "))
+            }
+            Op::Retract(ids) => format!("retract {}", list(ids)),
+            Op::Cancel(ids) => format!("cancel {}", list(ids)),
+            Op::End(t, r) => {
+                let en: Vec<String> = pre
+                    .blocked
+                    .iter()
+                    .map(|(rq, rv)| format!("{}:{}:{}", rq.as_num(), rv.as_num(), self.vw.is_enabled(*rq, *rv).unwrap_or(false) as u8))
+                    .collect();
+                format!("end {} {} {}", t, r.name(), list(en))
+            }
+            Op::Fire(t) => format!("fire {t}"),
+            Op::RCheck => format!("rcheck {}", list(pre.prefilled.iter().map(|(rq, _)| rq.as_num()))),
+            Op::NewRq(id, c) => format!("newrq {} {}", id, show_class(c)),
+            Op::Stop => "stop".to_string(),
+        };
+        tr.op(&op_line);
+
+        if bad_op {
+            tr.out("!bad-op");
+            return;
+        }
+        if let Err((loc, msg)) = &result {
+            let site = panic_site(loc, msg);
+            tr.out(&format!("!panic {site}"));
+            if self.contract_ok {
+                tr.mon_fail("c09.panic", &site, &format!("the worker panicked on a message sequence that satisfies the server contract: [{loc}] {msg}"));
+            }
+            self.panicked = true;
+            return;
+        }
+
+        // ---- out lines
+        for (c, h) in calls.iter().zip(call_handle.iter()) {
+            tr.out(&format!("launch {} {} {} {} {}", c.task, c.inst, c.rv, h, if c.ok { "ok" } else { "fail" }));
+        }
+        let held_after: BTreeSet<u64> = held.values().copied().collect();
+        let mut rel: BTreeSet<u64> = held_before.values().copied().collect();
+        rel.extend(fresh.iter().copied());
+        let rel: Vec<u64> = rel.into_iter().filter(|h| !held_after.contains(h)).collect();
+        if !rel.is_empty() {
+            tr.out(&format!("rel {}", list(&rel)));
+        }
+        stops.sort();
+        for (t, k) in &stops {
+            tr.out(&format!("stop {t} {k}"));
+        }
+        let mut upd_items: Vec<Vec<String>> = vec![];
+        let mut retr_resp: Vec<Vec<u32>> = vec![];
+        for m in &msgs {
+            match m {
+                FromWorkerMessage::TaskUpdate(us) => {
+                    let items: Vec<String> = us
+                        .iter()
+                        .map(|u| match u {
+                            WorkerTaskUpdate::Finished { task_id } => format!("fin:{}", tnum(*task_id)),
+                            WorkerTaskUpdate::Failed { task_id, info } => {
+                                let k = if info.message.contains("Time limit reached") {
+                                    "timeout"
+                                } else if info.message.contains("launch failed") {
+                                    "launch"
+                                } else if info.message.contains("task failed") {
+                                    "error"
+                                } else {
+                                    "other"
+                                };
+                                format!("fail:{}:{k}", tnum(*task_id))
+                            }
+                            WorkerTaskUpdate::Running(m) => format!("run:{}:{}", tnum(m.task_id), m.rv_id.as_num()),
+                            WorkerTaskUpdate::RunningPrefilled(m) => format!("runp:{}:{}", tnum(m.task_id), m.rv_id.as_num()),
+                            WorkerTaskUpdate::RejectRequest { task_id, rv_id } => {
+                                format!("rej:{}:{}", tnum(*task_id), rv_id.map(|v| v.as_num().to_string()).unwrap_or("n".into()))
+                            }
+                            WorkerTaskUpdate::EnableRequest { resource_rq_id, rv_id } => format!("en:{}:{}", resource_rq_id.as_num(), rv_id.as_num()),
+                        })
+                        .collect();
+                    tr.out(&format!("upd {}", list(&items)));
+                    upd_items.push(items);
+                }
+                FromWorkerMessage::RetractResponse(r) => {
+                    let mut ids: Vec<u32> = r.retracted.iter().map(|t| tnum(*t)).collect();
+                    ids.sort();
+                    tr.out(&format!("retr {}", list(&ids)));
+                    retr_resp.push(ids);
+                }
+                other => tr.out(&format!("msg {}", format!("{other:?}").split(['(', ' ', '{']).next().unwrap_or("?"))),
+            }
+        }
+        if matches!(op, Op::Stop) {
+            tr.out("stopped");
+            self.stopped = true;
+        }
+        if !post.running.is_empty() {
+            tr.out(&format!(
+                "run {}",
+                list(post.running.iter().map(|r| {
+                    let t = tnum(r.task_id);
+                    format!("{}:{}:{}:{}:{}", t, r.instance_id.as_num(), r.resource_rq_id.as_num(), r.rv_id.as_num(), held[&t])
+                }))
+            ));
+        }
+        let mut backlog: Vec<_> = post.prefilled.iter().filter(|(_, ts)| !ts.is_empty()).collect();
+        backlog.sort_by_key(|(rq, _)| *rq);
+        for (rq, ts) in backlog {
+            tr.out(&format!("backlog {} {}", rq.as_num(), list(ts.iter().map(|(t, i)| format!("{}.{}", tnum(*t), i.as_num())))));
+        }
+        let mut blocked: Vec<(u32, u32)> = post.blocked.iter().map(|(rq, rv)| (rq.as_num(), rv.as_num() as u32)).collect();
+        blocked.sort();
+        if !blocked.is_empty() {
+            tr.out(&format!("blocked {}", list(blocked.iter().map(|(a, b)| format!("{a}:{b}")))));
+        }
+
+        // ---- monitors on the observed behaviour of the real worker
+        // c08.worker / c06.given_back
+        for c in &calls {
+            // (the clause is about message sequences of a correct server: a task id that is running and in
+            // the backlog at the same time only exists after a ComputeTasks that violates the contract)
+            if let Some(in_backlog) = self.cancelled.get(&c.task).filter(|_| self.contract_ok) {
+                let sig = if *in_backlog { "cancel-ignores-backlog" } else { "launch-after-cancel" };
+                mons.push(("c08.worker".into(), sig.into(), format!("task {} was launched (instance {}) after CancelTasks named it and no later ComputeTasks contained it", c.task, c.inst)));
+            }
+            if self.retracted.contains(&c.task) {
+                mons.push(("c06.given_back".into(), "launch-after-retract".into(), format!("task {} was launched after the worker returned it in a RetractResponse", c.task)));
+            }
+        }
+        if let Op::Cancel(ids) = op {
+            for t in ids {
+                self.cancelled.insert(*t, backlog_before.contains(t));
+            }
+        }
+        for ids in &retr_resp {
+            for t in ids {
+                self.retracted.insert(*t);
+            }
+        }
+        // c04.handover
+        {
+            let mut seen: BTreeMap<u64, u32> = Default::default();
+            for (t, h) in &held {
+                if let Some(t0) = seen.insert(*h, *t) {
+                    mons.push(("c04.handover".into(), "shared-allocation".into(), format!("tasks {t0} and {t} run with the same allocation {h}")));
+                }
+            }
+            let ended = match op { Op::End(t, _) => Some(*t), _ => None };
+            let others: BTreeSet<u64> = held_before.iter().filter(|(t, _)| Some(**t) != ended).map(|(_, h)| *h).collect();
+            for (c, h) in calls.iter().zip(call_handle.iter()) {
+                if others.contains(h) {
+                    mons.push(("c04.handover".into(), "handover-of-held".into(), format!("task {} was launched with allocation {h} that another running task holds", c.task)));
+                }
+                if c.ok && held.get(&c.task) != Some(h) {
+                    mons.push(("c04.handover".into(), "launcher-allocation-differs".into(), format!("task {} was launched with allocation {h} but runs with {:?}", c.task, held.get(&c.task))));
+                }
+            }
+            for p in &self.pinned {
+                let alive = p.weak.strong_count() > 0;
+                if alive != held_after.contains(&p.id) {
+                    mons.push(("c04.handover".into(), if alive { "not-released" } else { "released-while-held" }.into(), format!("allocation {} alive={alive} held={}", p.id, !alive)));
+                }
+            }
+            let free = free_amounts(&self.vw.allocator_snapshot());
+            let mut used = vec![0u64; free.len()];
+            for r in &post.running {
+                for (res, amount) in &r.amounts {
+                    if (*res as usize) < used.len() {
+                        used[*res as usize] += amount;
+                    }
+                }
+            }
+            for i in 0..free.len() {
+                if free[i] + used[i] != self.total[i] {
+                    mons.push(("c04.handover".into(), "not-conserved".into(), format!("resource {i}: free {} + held by running tasks {} != total {}", free[i], used[i], self.total[i])));
+                }
+            }
+        }
+        // c01.timeout
+        match op {
+            Op::Fire(t) => {
+                self.fired.insert(*t);
+                self.deadlines.remove(t);
+                if !self.signalled.contains_key(t) {
+                    mons.push(("c01.timeout".into(), "no-stop-signal".into(), format!("the time limit of task {t} elapsed but no stop signal was sent")));
+                }
+            }
+            Op::End(t, res) => {
+                let first = upd_items.first().and_then(|b| b.first()).cloned().unwrap_or_default();
+                let expect = match res {
+                    EndRes::Fin => Some(format!("fin:{t}")),
+                    EndRes::Err => Some(format!("fail:{t}:error")),
+                    EndRes::Tmo => Some(format!("fail:{t}:timeout")),
+                    EndRes::Can => None,
+                };
+                match expect {
+                    Some(x) if x != first => {
+                        mons.push(("c01.timeout".into(), "result-not-reported".into(), format!("task {t} ended with {} but the first update is `{first}`", res.name())));
+                    }
+                    None if first.ends_with(&format!(":{t}")) || first.contains(&format!(":{t}:")) => {
+                        if !first.starts_with("run") && !first.starts_with("rej") && !first.starts_with("en") {
+                            mons.push(("c01.timeout".into(), "canceled-reported".into(), format!("task {t} ended canceled but `{first}` was reported")));
+                        }
+                    }
+                    _ => {}
+                }
+                self.deadlines.remove(t);
+                self.fired.remove(t);
+                self.signalled.remove(t);
+            }
+            _ => {}
+        }
+        // c02.enable
+        if let Op::End(..) = op {
+            let reused = calls.iter().any(|c| c.ok);
+            if !reused {
+                let all_items: BTreeSet<String> = upd_items.iter().flatten().cloned().collect();
+                let post_blocked: BTreeSet<(u32, u32)> = blocked.iter().copied().collect();
+                for (rq, rv) in &pre.blocked {
+                    let en = self.vw.is_enabled(*rq, *rv).unwrap_or(false);
+                    let key = (rq.as_num(), rv.as_num() as u32);
+                    let item = format!("en:{}:{}", key.0, key.1);
+                    if en && (post_blocked.contains(&key) || !all_items.contains(&item)) {
+                        mons.push(("c02.enable".into(), "not-unblocked".into(), format!("request {}:{} is admitted by the allocator after the task end but was not enabled", key.0, key.1)));
+                    }
+                    if !en && (!post_blocked.contains(&key) || all_items.contains(&item)) {
+                        mons.push(("c02.enable".into(), "spurious-enable".into(), format!("request {}:{} is not admitted by the allocator but was enabled", key.0, key.1)));
+                    }
+                }
+            }
+        }
+        for (c, s, d) in mons {
+            tr.mon_fail(&c, &s, &d);
+        }
+
+        // ---- harness bookkeeping for the generator
+        for c in &calls {
+            if c.ok {
+                self.signalled.remove(&c.task);
+                self.fired.remove(&c.task);
+                if let Some(Some(tl)) = self.tl_of.get(&(c.task, c.inst)) {
+                    self.deadlines.insert(c.task, self.now_ms + tl);
+                } else {
+                    self.deadlines.remove(&c.task);
+                }
+            }
+        }
+        if let Op::NewRq(_, c) = op {
+            self.classes.push(c.clone());
+        }
+        self.held = held;
+    }
+}
+
+// ------------------------------------------------------------------------------------------------
+// generator
+
+struct Gen {
+    rng: Rng,
+    next_task: u32,
+    /// tasks the worker no longer holds (ended / rejected / retracted), with their last instance
+    gone: BTreeMap<u32, u32>,
+    inst: BTreeMap<u32, u32>,
+    malformed: bool,
+}
+
+fn gen_params(rng: &mut Rng) -> Params {
+    let lim = if rng.chance(1, 3) { Some(3600) } else { None };
+    let (sockets, per_socket) = *rng.pick(&[(1u32, 2u32), (2, 2), (1, 4), (2, 1), (1, 1), (2, 3)]);
+    let gpus = rng.below(3) as u32;
+    let ncls = rng.range(1, 3);
+    let mut classes = vec![];
+    for _ in 0..ncls {
+        classes.push(gen_class(rng, lim.is_some(), gpus > 0, sockets * per_socket));
+    }
+    Params { lim, sockets, per_socket, gpus, classes }
+}
+
+fn gen_class(rng: &mut Rng, lim: bool, gpus: bool, ncpus: u32) -> Class {
+    let nv = if rng.chance(1, 4) { 2 } else { 1 };
+    (0..nv)
+        .map(|_| {
+            let mut k;
+            loop {
+                k = *rng.pick(&KINDS);
+                if k == "g1" && !gpus {
+                    continue;
+                }
+                // mostly requests the worker can run at all
+                if (k == "c3" && ncpus < 3) || ((k == "c2" || k == "fc2" || k == "sc2") && ncpus < 2) {
+                    if rng.chance(9, 10) {
+                        continue;
+                    }
+                }
+                break;
+            }
+            let mt = match rng.below(10) {
+                0 | 1 => 10,
+                2 if lim => 7200,
+                _ => 0,
+            };
+            (k.to_string(), mt)
+        })
+        .collect()
+}
+
+impl Gen {
+    fn sample_ids(&mut self, w: &W, snap: &VerifWorkerSnapshot2) -> Vec<u32> {
+        let backlog: Vec<u32> = snap.prefilled.iter().flat_map(|(_, ts)| ts.iter().map(|(t, _)| tnum(*t))).collect();
+        let running: Vec<u32> = snap.running.iter().map(|r| tnum(r.task_id)).collect();
+        let gone: Vec<u32> = self.gone.keys().copied().collect();
+        let _ = w;
+        let n = self.rng.weighted(&[1, 6, 4, 2]);
+        let mut ids = vec![];
+        for _ in 0..n {
+            let src = self.rng.weighted(&[6, 4, 1, 1]);
+            let t = match src {
+                0 if !backlog.is_empty() => *self.rng.pick(&backlog),
+                1 if !running.is_empty() => *self.rng.pick(&running),
+                2 if !gone.is_empty() => *self.rng.pick(&gone),
+                _ => 1000 + self.rng.below(5) as u32,
+            };
+            if !ids.contains(&t) || self.rng.chance(1, 10) {
+                ids.push(t);
+            }
+        }
+        ids
+    }
+
+    fn gen_compute(&mut self, w: &W, snap: &VerifWorkerSnapshot2) -> Op {
+        let n = self.rng.weighted(&[0, 5, 4, 2, 1]);
+        let held: BTreeSet<u32> = snap
+            .running
+            .iter()
+            .map(|r| tnum(r.task_id))
+            .chain(snap.prefilled.iter().flat_map(|(_, ts)| ts.iter().map(|(t, _)| tnum(*t))))
+            .collect();
+        let nreq = snap.n_requests as u32;
+        let mut es: Vec<Entry> = vec![];
+        let mut any_assigned = false;
+        for _ in 0..n {
+            let gone: Vec<u32> = self.gone.keys().copied().filter(|t| !es.iter().any(|e| e.task == *t)).collect();
+            let task = if self.malformed && !held.is_empty() && self.rng.chance(1, 12) {
+                *self.rng.pick(&held.iter().copied().collect::<Vec<_>>())
+            } else if !gone.is_empty() && self.rng.chance(1, 6) {
+                let t = *self.rng.pick(&gone);
+                self.gone.remove(&t);
+                t
+            } else {
+                self.next_task += 1;
+                self.next_task
+            };
+            let inst = {
+                let i = self.inst.entry(task).or_insert(0);
+                let v = *i;
+                *i += 1;
+                v
+            };
+            if nreq == 0 {
+                break;
+            }
+            let mut rq = self.rng.below(nreq as u64) as u32;
+            let mut assigned = self.rng.chance(11, 20);
+            let mut rv = 0;
+            if assigned {
+                let nv = w.classes.get(rq as usize).map(|c| c.len()).unwrap_or(1) as u64;
+                rv = self.rng.below(nv) as u32;
+                if w.hard_regime(rq, rv) && (any_assigned || self.rng.chance(1, 2)) {
+                    assigned = false;
+                }
+            }
+            if self.malformed && self.rng.chance(1, 25) {
+                if assigned && self.rng.chance(1, 2) {
+                    rv += 3;
+                } else {
+                    rq = nreq + self.rng.below(2) as u32;
+                }
+            }
+            let tl_ms = match self.rng.below(20) {
+                0..=4 => Some(self.rng.range(1000, 100_000)),
+                5 => Some(1_000_000_000),
+                _ => None,
+            };
+            let fail = self.rng.chance(1, 12);
+            any_assigned |= assigned;
+            es.push(Entry { task, inst, rq, rv: if assigned { Some(rv) } else { None }, tl_ms, fail });
+        }
+        Op::Compute(es)
+    }
+
+    fn next_op(&mut self, w: &W) -> Op {
+        let snap = w.snapshot();
+        let nrun = snap.running.len() as u64;
+        let fire = {
+            let mut ds: Vec<(u64, u32)> = w.deadlines.iter().map(|(t, d)| (*d, *t)).collect();
+            ds.sort();
+            match ds.as_slice() {
+                [] => None,
+                [(d, t)] if *d < 500_000_000 => Some(*t),
+                [(d0, t), (d1, _), ..] if d0 + 10 < *d1 && *d0 < 500_000_000 => Some(*t),
+                _ => None,
+            }
+        };
+        let weights = [
+            30,
+            8,
+            10,
+            if nrun > 0 { 22 + 4 * nrun } else { 0 },
+            if fire.is_some() { 6 } else { 0 },
+            4,
+            2,
+        ];
+        match self.rng.weighted(&weights) {
+            0 => self.gen_compute(w, &snap),
+            1 => Op::Retract(self.sample_ids(w, &snap)),
+            2 => Op::Cancel(self.sample_ids(w, &snap)),
+            3 => {
+                let r = self.rng.pick(&snap.running);
+                let t = tnum(r.task_id);
+                let res = match w.signalled.get(&t) {
+                    Some(&"timeout") => [EndRes::Tmo, EndRes::Tmo, EndRes::Tmo, EndRes::Fin, EndRes::Err, EndRes::Can][self.rng.below(6) as usize],
+                    Some(_) => [EndRes::Can, EndRes::Can, EndRes::Can, EndRes::Fin, EndRes::Err, EndRes::Tmo][self.rng.below(6) as usize],
+                    None => [EndRes::Fin, EndRes::Fin, EndRes::Fin, EndRes::Fin, EndRes::Err, EndRes::Err, EndRes::Can, EndRes::Tmo][self.rng.below(8) as usize],
+                };
+                Op::End(t, res)
+            }
+            4 => Op::Fire(fire.unwrap()),
+            5 => Op::RCheck,
+            _ => {
+                let id = snap.n_requests as u32 + if self.malformed && self.rng.chance(1, 6) { 1 } else { 0 };
+                let c = gen_class(&mut self.rng, w.lim.is_some(), true, 4);
+                Op::NewRq(id, c)
+            }
+        }
+    }
+
+    /// keeps the generator's idea of which ids the worker gave back
+    fn observe(&mut self, before: &VerifWorkerSnapshot2, after: &VerifWorkerSnapshot2) {
+        let held = |s: &VerifWorkerSnapshot2| -> BTreeMap<u32, u32> {
+            s.running
+                .iter()
+                .map(|r| (tnum(r.task_id), r.instance_id.as_num()))
+                .chain(s.prefilled.iter().flat_map(|(_, ts)| ts.iter().map(|(t, i)| (tnum(*t), i.as_num()))))
+                .collect()
+        };
+        let (b, a) = (held(before), held(after));
+        for (t, i) in b {
+            if !a.contains_key(&t) {
+                self.gone.insert(t, i);
+            }
+        }
+        for t in a.keys() {
+            self.gone.remove(t);
+        }
+    }
+}
+
+pub fn run_case(tr: &mut Trace, idx: u64, subseed: u64, thorough: bool) {
+    let mut rng = Rng::new(subseed);
+    let params = gen_params(&mut rng);
+    let malformed = rng.chance(1, 8);
+    let nops = if thorough { rng.range(40, 120) } else { rng.range(25, 70) };
+    tr.case(idx, subseed, &format!("{} mal={} n={}", params.show(), malformed as u8, nops));
+    let mut w = W::new(&params);
+    let mut g = Gen { rng, next_task: 0, gone: Default::default(), inst: Default::default(), malformed };
+    let with_stop = g.rng.chance(1, 10);
+    for _ in 0..nops {
+        if w.panicked {
+            break;
+        }
+        let op = g.next_op(&w);
+        let before = w.snapshot();
+        if let Op::Compute(es) = &op {
+            // entries that are rejected are given back at once
+            for e in es {
+                g.gone.insert(e.task, e.inst);
+            }
+        }
+        w.step(&op, tr);
+        if w.panicked {
+            break;
+        }
+        let after = w.snapshot();
+        g.observe(&before, &after);
+    }
+    // drain: end every running task so that every handover / release / enable happens
+    let mut guard = 0;
+    while !w.panicked && guard < 200 {
+        let snap = w.snapshot();
+        let Some(r) = snap.running.first() else { break };
+        let t = tnum(r.task_id);
+        w.step(&Op::End(t, if g.rng.chance(3, 4) { EndRes::Fin } else { EndRes::Err }), tr);
+        guard += 1;
+    }
+    if !w.panicked && with_stop {
+        w.step(&Op::Stop, tr);
+    }
+    tr.end();
+    // leak the runtime's pending task futures quietly
+    drop(w);
+}
+
+// ------------------------------------------------------------------------------------------------
+// replay
+
+fn parse_u32_list(s: &str) -> Vec<u32> {
+    if s == "-" { vec![] } else { s.split(',').map(|x| x.parse().unwrap()).collect() }
+}
+
+fn parse_op(toks: &[&str]) -> Option<Op> {
+    match toks {
+        ["compute", es @ ..] => {
+            let mut v = vec![];
+            for e in es {
+                let f: Vec<&str> = e.split(':').collect();
+                if f.len() < 6 {
+                    return None;
+                }
+                v.push(Entry {
+                    task: f[0].parse().ok()?,
+                    inst: f[1].parse().ok()?,
+                    rq: f[2].parse().ok()?,
+                    rv: if f[3] == "p" { None } else { Some(f[3].parse().ok()?) },
+                    tl_ms: if f[4] == "-" { None } else { Some(f[4].parse().ok()?) },
+                    fail: f[5] == "f1",
+                });
+            }
+            Some(Op::Compute(v))
+        }
+        ["retract", ids] => Some(Op::Retract(parse_u32_list(ids))),
+        ["cancel", ids] => Some(Op::Cancel(parse_u32_list(ids))),
+        ["end", t, r, ..] => Some(Op::End(t.parse().ok()?, EndRes::parse(r))),
+        ["fire", t] => Some(Op::Fire(t.parse().ok()?)),
+        ["rcheck", ..] => Some(Op::RCheck),
+        ["newrq", id, c] => Some(Op::NewRq(id.parse().ok()?, parse_class(c))),
+        ["stop"] => Some(Op::Stop),
+        _ => None,
+    }
+}
+
+pub fn replay(tr: &mut Trace) {
+    use std::io::BufRead;
+    let stdin = std::io::stdin();
+    let mut cur: Option<W> = None;
+    for line in stdin.lock().lines() {
+        let line = line.unwrap();
+        let toks: Vec<&str> = line.split_whitespace().collect();
+        match toks.as_slice() {
+            ["case", rest @ ..] => {
+                if cur.take().is_some() {
+                    tr.end();
+                }
+                tr.line(&line);
+                let params = Params::parse(rest);
+                cur = Some(W::new(&params));
+            }
+            ["op", rest @ ..] => {
+                if let Some(w) = cur.as_mut() {
+                    if w.panicked {
+                        continue;
+                    }
+                    match parse_op(rest) {
+                        Some(op) => w.step(&op, tr),
+                        None => {
+                            tr.line(&line);
+                            tr.out("!bad-op");
+                        }
+                    }
+                }
+            }
+            ["end"] => {
+                if cur.take().is_some() {
+                    tr.end();
+                }
+            }
+            _ => {}
+        }
+    }
+    if cur.take().is_some() {
+        tr.end();
+    }
+}
+
+pub fn main(mode: &str, args: &[String]) {
+    let a = GenArgs::parse(args);
+    let mut tr = Trace::new();
+    match mode {
+        "gen" => {
+            for k in 0..a.cases {
+                let subseed = a.case_seed(k);
+                run_case(&mut tr, a.shard * 1_000_000 + k, subseed, a.thorough);
+            }
+        }
+        "case" => {
+            let subseed: u64 = args[0].parse().unwrap();
+            run_case(&mut tr, 0, subseed, args.get(1).map(|s| s == "thorough").unwrap_or(false));
+        }
+        "replay" => replay(&mut tr),
+        _ => {
+            eprintln!("component worker: unknown mode {mode}");
+            std::process::exit(2);
+        }
+    }
+    tr.flush();
 }
